@@ -120,6 +120,19 @@ def m_str_is_empty(ex, a): return Bool(len(as_str(a[0]).chars) == 0)
 def char_val(c): return Int(ord(c), 'char') if isinstance(c, str) else c
 @model('core::str::<impl str>::chars')
 def m_chars(ex, a): return IterV(iter([char_val(c) for c in as_str(a[0]).chars]))
+@model('core::str::<impl str>::encode_utf16')
+def m_encode_utf16(ex, a):
+    out = []
+    for c in as_str(a[0]).chars:
+        cv = char_val(c); k = cv.concrete()
+        if k is None: k_astral = ex.choose([(False, z3.ULT(cv.bv, z3.BitVecVal(0x10000, 32))), (True, z3.UGE(cv.bv, z3.BitVecVal(0x10000, 32)))])
+        else: k_astral = k >= 0x10000
+        if not k_astral: out.append(Int(k, 'u16') if k is not None else Int(z3.Extract(15, 0, cv.bv), 'u16'))
+        elif k is not None: out += [Int(0xD800 + ((k - 0x10000) >> 10), 'u16'), Int(0xDC00 + ((k - 0x10000) & 0x3FF), 'u16')]
+        else:
+            d = cv.bv - z3.BitVecVal(0x10000, 32)
+            out += [Int(z3.Extract(15, 0, z3.BitVecVal(0xD800, 32) + z3.LShR(d, 10)), 'u16'), Int(z3.Extract(15, 0, z3.BitVecVal(0xDC00, 32) + (d & 0x3FF)), 'u16')]
+    return IterV(iter(out))
 @model('core::str::<impl str>::char_indices')
 def m_char_indices(ex, a):
     sv = as_str(a[0]); out = []; pos = Int(0, 'usize')
